@@ -34,11 +34,12 @@ def run(ctx):
                 continue
             if rr['outcome'] == 'setup-error':
                 raise vlib.Infra('C13 setup: %s' % rr)
-            ctx.case(key='%s %s %s %d %s' % (curve, b['builder'], b['mix'], b['var'], b['class']), nontrivial=b['class'] != 'honest-in')
+            same = ' (one variable, all widths)' if b.get('mode') == 'same' else ''
+            ctx.case(key='%s %s %s%s %d %s' % (curve, b['builder'], b['mix'], same, b['var'], b['class']), nontrivial=b['class'] != 'honest-in')
             ctx.traces += 1
             if rr['outcome'] != b['expected']:
-                ctx.report('range check %s widths=%s variable %d class=%s: expected %s, real gadget: %s' % (
-                    b['builder'], b['mix'], b['var'], b['class'], b['expected'], rr['outcome']), {'curve': curve, 'behaviour': b, 'result': rr})
+                ctx.report('range check %s widths=%s%s variable %d class=%s: expected %s, real gadget: %s' % (
+                    b['builder'], b['mix'], same, b['var'], b['class'], b['expected'], rr['outcome']), {'curve': curve, 'behaviour': b, 'result': rr})
             if rr['obs_base'] and (rr['obs_base'] != b['base'] or rr['obs_limbs'] != b['nbLimbs']):
                 ctx.report('range check %s widths=%s: gadget uses limb width %d x %d limbs, the transcription of optimalWidth gives %d x %d' % (
                     b['builder'], b['mix'], rr['obs_base'], rr['obs_limbs'], b['base'], b['nbLimbs']), {'curve': curve, 'behaviour': b, 'result': rr})
@@ -52,5 +53,44 @@ def run(ctx):
                 import re
                 ctx.report('lookup table %s %s: expected %s, real gadget: %s' % (rr['builder'], re.sub(r'size=\d+', 'size=N', rr['case']), rr['want'], rr['outcome']),
                            {'curve': curve, 'result': rr})
+    plain(ctx, quick)
     ctx.sample(behs[5])
     ctx.sample(behs[100])
+
+
+PLAIN_CLASSES = {
+    'solve fails although every assertion holds',
+    'solve succeeds although an assertion is violated',
+    'computed value differs from the reference semantics',
+    'compile rejects a program the reference semantics can satisfy',
+    'solver panic',
+    'returned solution is not a satisfying assignment',
+}
+
+
+def plain(ctx, quick):
+    """The bit-decomposition range checker (builders without commitments): Check(v, n) for widths around the field size,
+    every operand kind; honest semantics for every value of F_47 and corner values of the large fields, and every
+    satisfying assignment of the exported rows (ConstraintSat twin enumerator)."""
+    from prog_common import judge_prog
+    r = ctx.tlc('ProgGenMC', 'ProgGen_rangeplain.cfg', workers=1, timeout=1800)
+    behs = r.beh
+    if len(behs) < 20:
+        raise vlib.Infra('ProgGen_rangeplain produced %d programs' % len(behs))
+    for i, b in enumerate(behs):
+        b['id'] = i
+    res = ctx.harness(['progrun', '--field', 'tinyfield', '--par', '16', '--checkevery', '1'], behs, timeout=3600)
+    judge_prog(ctx, behs, res, PLAIN_CLASSES, 'tinyfield')
+    for f in (['bn254'] if quick else ['bn254', 'bls12-377', 'bw6-761', 'babybear']):
+        res = ctx.harness(['progrun', '--field', f, '--par', '16', '--checkevery', '0'], behs, timeout=3600)
+        judge_prog(ctx, behs, res, PLAIN_CLASSES, f)
+    en = ctx.harness(['satenum', '--field', 'tinyfield', '--cases', '1', '--budget', '20000000', '--par', '16'], behs, timeout=3600)
+    for e in en:
+        if e.get('skip'):
+            continue
+        ctx.case(key='plain sat ' + e['name'], nontrivial=e['nb_rows'] > 0)
+        ctx.traces += 1
+        if e['nb_violations']:
+            ctx.report('bit-decomposition range check admits an out-of-range assignment: %s' % e['name'],
+                       {'case': e['name'], 'examples': e['violations'], 'count': e['nb_violations']})
+    ctx.extra['plain_checker_programs'] = len(behs)
